@@ -223,6 +223,7 @@ Section Step.
     target_pos a (cs_to c) from = Ok tp -> valid_shift from tp = true ->
     dhas dim (dims t) = true -> lookupP tp (ax_coords a) = Some newdim ->
     dhas newdim (dims t) = false ->
+    words_known (complete_kwargs g (@ax_boundary A) (cs_boundary c)) = true ->
     (forall lo hi (t' : tensor A),
         resolve_one (zero o) g (dnames (dims t'))
                     (complete_kwargs g (@ax_boundary A) (cs_boundary c))
@@ -235,7 +236,7 @@ Section Step.
       forall e, e newdim < plen tp N ->
         get res e = spec_cumsum o r cf (column t dim (upd e dim (e newdim))) from tp N (e newdim).
   Proof.
-    intros Htbl Hwf Hax Hpos Htp Hv Hhas Hnew Hfresh Hres HN Hlead Hsize Hds.
+    intros Htbl Hwf Hax Hpos Htp Hv Hhas Hnew Hfresh Hknown Hres HN Hlead Hsize Hds.
     destruct (cs_table_lookup tbl from tp Htbl Hv) as ([trim [lo hi]] & Hlk & Hok).
     unfold cumsum_step. rewrite Hax. cbn [bind]. rewrite Hpos. cbn [bind fst snd].
     rewrite Htp. cbn [bind]. rewrite Hlk.
@@ -282,7 +283,7 @@ Section Step.
           induction (dims t) as [|[d' n] rr IH]; try reflexivity; simpl;
           destruct (String.eqb d' dim) eqn:E; simpl; rewrite ?String.eqb_refl, ?E; simpl;
           rewrite ?String.eqb_refl, ?E; try reflexivity; f_equal; exact IH. }
-      unfold pad. simpl forallb.
+      unfold pad. rewrite Hknown. cbn [negb]. simpl forallb.
       destruct ((lo =? 0) && (hi =? 0) && true) eqn:Z0.
       - exists d2. apply andb_true_iff in Z0. destruct Z0 as [Z0 _].
         apply andb_true_iff in Z0. destruct Z0 as [Z1 Z2].
